@@ -166,7 +166,7 @@ Proof.
   intros HP HS Hn. pose proof (objs_are_stable ms d es) as St. cbv zeta.
   assert (Hm2 : mok2 c m).
   { pose proof (p2_methods _ _ _ _ _ _ HP) as Ms. rewrite Forall_forall in Ms. apply Ms. eapply nth_error_In. exact Hn. }
-  destruct Hm2 as [Sh Len].
+  destruct Hm2 as [Sh [Len Hbody]].
   eapply hoare_bind; [apply draw_choices_spec; exact St|]. intros picks. apply hoare_pure_pre2. intros _ _.
   destruct (nat_mem id _); [apply hoare_fail|].
   eapply hoare_bind; [apply get_methods_nth|]. intros cms. apply hoare_pure_pre. intros Hcms.
@@ -236,14 +236,14 @@ Proof.
 Qed.
 
 Theorem gen_main_sites c :
-  cfg_facts c -> 1 <= c_nb_methods c ->
+  cfg_facts c -> 0 <= method_size c -> 1 <= c_nb_methods c ->
   hoare empty_objects (gen_main c) (fun img _ => Sites c (im_methods img)).
 Proof.
-  intros F Hnb. unfold gen_main.
+  intros F Hms Hnb. unfold gen_main.
   destruct (c_jit_start c <? c_int_start c); [apply hoare_fail|].
   destruct (c_nb_methods c =? 0); [apply hoare_fail|].
   assert (St : stable empty_objects).
-  { intros s s' (A & B & C) (E1 & E2 & E3). unfold empty_objects. rewrite E1, E2, E3. auto. }
+  { intros s s' (A & B & C) (E1 & E2 & E3) _. unfold empty_objects. rewrite E1, E2, E3. auto. }
   eapply hoare_bind with (Q := fun _ s => empty_objects s).
   { destruct (uses_tramp (c_variant c)).
     - eapply hoare_bind; [apply hoare_lift|]. intros t1. apply hoare_pure_pre. intros _.
@@ -262,7 +262,7 @@ Proof.
     destruct (patch_ids c _ s) as [[a s']|err]; [|exact I]. destruct G as [_ G]. exact G. }
   intro.
   assert (St2 : stable (fun s => Sites c (g_methods s))).
-  { intros s s' A (E1 & _). rewrite E1. exact A. }
+  { intros s s' A (E1 & _) _. rewrite E1. exact A. }
   eapply hoare_bind; [apply fill_interpretation_loop_stable; exact St2|]. intros ints.
   apply hoare_pure_pre. intros _.
   intros s HS. cbv beta zeta.
@@ -285,10 +285,10 @@ Proof.
 Qed.
 
 Theorem run_gen_sites c script img rest :
-  cfg_facts c -> 1 <= c_nb_methods c -> run_gen c script = OK (img, rest) -> Sites c (im_methods img).
+  cfg_facts c -> 0 <= method_size c -> 1 <= c_nb_methods c -> run_gen c script = OK (img, rest) -> Sites c (im_methods img).
 Proof.
-  intros F Hnb H. unfold run_gen in H.
-  pose proof (gen_main_sites c F Hnb (mk_gs script [] [] []) (conj eq_refl (conj eq_refl eq_refl))) as G.
+  intros F Hms Hnb H. unfold run_gen in H.
+  pose proof (gen_main_sites c F Hms Hnb (mk_gs script [] [] []) (conj eq_refl (conj eq_refl eq_refl))) as G.
   destruct (gen_main c (mk_gs script [] [] [])) as [[im s]|e]; [|discriminate].
   inversion H; subst. exact G.
 Qed.
